@@ -17,12 +17,12 @@ from ..common import Skip, brief
 ID = "C14"
 CASES = {"quick": 3200, "thorough": 36000}
 FLOOR = {"quick": 1600, "thorough": 20000}
-FLOOR_COUNTERS = {"quick": {"uses_after_a_refused_refit": 200, "tolerance_given_as_a_shared_0d_array": 250, "more_than_4096_rows": 15, "caller_buffers_overwritten_after_fit": 300, "fits_through_fit_transform": 300, "configured_not_by_constructor": 300, "non_default_containers": 300, "fits_judged": 3500, "nested_pairs": 1200, "new_data_calls": 3000, "y1d_cases": 300, "default_n_components_fits": 100, "estimators_with_a_past": 500, "arpack_fits": 200}, "thorough": {"uses_after_a_refused_refit": 2500, "tolerance_given_as_a_shared_0d_array": 3000, "more_than_4096_rows": 200, "caller_buffers_overwritten_after_fit": 4000, "fits_through_fit_transform": 4000, "configured_not_by_constructor": 4000, "non_default_containers": 4000, "fits_judged": 45000, "nested_pairs": 15000, "new_data_calls": 40000, "y1d_cases": 4000, "default_n_components_fits": 1200, "estimators_with_a_past": 6000, "arpack_fits": 2500}}
+FLOOR_COUNTERS = {"quick": {"earlier_data_with_the_same_shape_means_and_norms": 700, "scores_off_the_training_set": 2500, "uses_after_a_refused_refit": 200, "tolerance_given_as_a_shared_0d_array": 250, "more_than_4096_rows": 15, "caller_buffers_overwritten_after_fit": 300, "fits_through_fit_transform": 300, "configured_not_by_constructor": 300, "non_default_containers": 300, "fits_judged": 3500, "nested_pairs": 1200, "new_data_calls": 3000, "y1d_cases": 300, "default_n_components_fits": 100, "estimators_with_a_past": 500, "arpack_fits": 200}, "thorough": {"earlier_data_with_the_same_shape_means_and_norms": 8000, "scores_off_the_training_set": 28000, "uses_after_a_refused_refit": 2500, "tolerance_given_as_a_shared_0d_array": 3000, "more_than_4096_rows": 200, "caller_buffers_overwritten_after_fit": 4000, "fits_through_fit_transform": 4000, "configured_not_by_constructor": 4000, "non_default_containers": 4000, "fits_judged": 45000, "nested_pairs": 15000, "new_data_calls": 40000, "y1d_cases": 4000, "default_n_components_fits": 1200, "estimators_with_a_past": 6000, "arpack_fits": 2500}}
 RULE = (
     "case = centred X, Y (1-D and 2-D), mixing in (0,1], space in {feature, sample}, regressor in the admissible set, "
     "k in [1, rank]; the fit for k and, when k+1 <= rank, for k+1 (full solver) are judged: projector algebra on training "
     "and new data, orthogonality of the latent coordinates, round trip, nestedness, losses non-increasing in k, score "
-    "formula, 1-D shapes. non-trivial = gap guard passed and k+1 fit compared; distinct by data+config hash."
+    "formula on the training set, on held-out data and for latent coordinates supplied by the caller, 1-D shapes. non-trivial = gap guard passed and k+1 fit compared; distinct by data+config hash."
 )
 ASSUMPTIONS = [
     "eigen-gap guard (relative gaps >= 1e-6 among lambda_1..lambda_{k+2}, lambda_{k+1}/lambda_1 >= 1e-8) else skipped",
